@@ -262,17 +262,26 @@ class SchemaRaises(SchemaBase):
         """
         type_check_self = self
         type_check_fn_name = type_check_fn.__name__
-        type_check_arg_names = [
-            k for k, v in signature(type_check_fn).parameters.items()
-        ]
+        type_check_signature = signature(type_check_fn)
+        type_check_arg_names = [k for k, v in type_check_signature.parameters.items()]
 
         @wraps(type_check_fn)
         def wrapped_fn(*args, **kwargs):
+            check_args = args
+            check_kwargs = kwargs
+            try:
+                # name the values the way Python binds them (defaults, *args, keyword only)
+                bound_args = type_check_signature.bind(*args, **kwargs)
+                bound_args.apply_defaults()
+                check_args = []
+                check_kwargs = dict(bound_args.arguments)
+            except TypeError:
+                pass  # not a valid call: report by position as before
             type_check_self.check_args(
                 fname=type_check_fn_name,
                 arg_names=type_check_arg_names,
-                args=args,
-                kwargs=kwargs,
+                args=check_args,
+                kwargs=check_kwargs,
             )
             type_check_return_value = type_check_fn(*args, **kwargs)
             type_check_self.check_return(
